@@ -26,6 +26,10 @@ From CB Require Import Trie.PersistFreezeProofs.
 From CB Require Import Trie.SerializeProofs.
 From CB Require Import Trie.Nibbles.
 From CB Require Import Trie.MerkleStem.
+From CB Require Import Trie.PersistReach.
+From CB Require Import Trie.PersistReachProofs.
+From CB Require Import Trie.CacheStatus.
+From CB Require Import Trie.CacheStatusProofs.
 Import ListNotations.
 Local Open Scope N_scope.
 
@@ -204,8 +208,9 @@ Theorem modified_state_store_roundtrip : forall (sha256 : list N -> list N),
 Proof. exact modified_state_stores. Qed.
 Print Assumptions modified_state_store_roundtrip.
 
-(** [cache] changes neither contents nor locations (in the model it is the identity: the
-    model has no separate "cached" status; the implementation is tied by correspondence). *)
+(** [cache] changes neither contents nor locations (on the located trees of [Persist.v] it is
+    the identity; the Disk / Memory / Cached statuses are modelled in [CacheStatus.v], see
+    "Storage status" below). *)
 Theorem cache_is_identity : forall r, cache r = r.
 Proof. exact (fun r => eq_refl). Qed.
 Print Assumptions cache_is_identity.
@@ -302,6 +307,147 @@ Theorem serialize_record_roundtrip : forall (sha256 : list N -> list N),
 Proof. exact dec_ser_record_enc. Qed.
 Print Assumptions serialize_record_roundtrip.
 
+(** ** Reachable states: the side conditions are derived from the operation history *)
+
+(** The machine [c_step] (insert / delete / delete_prefix / lookup / get_mut+write / iterate /
+    new_generation / normalize / freeze / store / load / cache / serialize / migrate, in any
+    order) started in the empty state.  [reach sha B s]: [s] is the state after some list of
+    operations in which every INSERTED key is a byte string of at most [B / 2] bytes and every
+    written value is shorter than 2^32 bytes (the keys of delete / delete_prefix / lookups are
+    arbitrary), every intermediate backing store staying below 2^64 bytes.
+    With [B = 2^32 - 1] (the largest stem length [write_node_path_and_value_tag] can encode:
+    it writes [stem_len as u32]) the bound on inserted keys is exactly [lenN k <= 2^31 - 1]. *)
+Theorem key_bound_is_u32_stem : forall k,
+  key_ok (2 ^ 32 - 1) k <-> (bytes_ok k = true /\ lenN k <= 2 ^ 31 - 1).
+Proof. exact key_bound_exact. Qed.
+Print Assumptions key_bound_is_u32_stem.
+
+(** In every reachable state the persistent tree and the tree the current generation freezes to
+    satisfy [tree_ok] (nibbles < 16, stems < 2^32) and [tok] (also values < 2^32), the store is
+    [bounded] and the frozen state is [consistent] with it - the hypotheses of
+    [store_load_roundtrip], [migrate_preserves], [serialize_deserialize_roundtrip]. *)
+Theorem reachable_frozen_tree_ok : forall (sha256 : list N -> list N),
+  (forall x, length (sha256 x) = 32%nat) ->
+  forall s, reach sha256 (2 ^ 32 - 1) s ->
+  root_ok (c_pers s) /\ root_ok (c_pers (settle s))
+  /\ (forall t, c_pers (settle s) = Some t -> tok (erase t))
+  /\ bounded (c_store s) /\ consistent_root sha256 (c_store (settle s)) (c_pers (settle s)).
+Proof. exact (fun sha len => reach_tree_ok sha len (2 ^ 32 - 1) eq_refl). Qed.
+Print Assumptions reachable_frozen_tree_ok.
+
+(** [store_load_roundtrip] without [tree_ok] / [bounded] / [consistent]: for the frozen state
+    of ANY reachable machine state. *)
+Theorem store_load_roundtrip_reachable : forall (sha256 : list N -> list N),
+  (forall x, length (sha256 x) = 32%nat) ->
+  forall s t st' kept loaded top,
+  reach sha256 (2 ^ 32 - 1) s -> c_pers (settle s) = Some t ->
+  store_update sha256 (Some t) (c_store (settle s)) = (st', kept, loaded, top) -> s_next st' < 2 ^ 64 ->
+  erase_root kept = Some (erase t) /\ erase_root loaded = Some (erase t)
+  /\ (exists x, root_ref loaded = Some x /\ load_raw st' top = Some (1 :: be64 x)
+                /\ loads sha256 st' x (erase t))
+  /\ bounded st'
+  /\ (match kept with Some k => consistent sha256 st' k | None => False end)
+  /\ (match loaded with Some l => consistent sha256 st' l | None => False end).
+Proof. exact (fun sha len => store_load_reachable sha len (2 ^ 32 - 1) eq_refl). Qed.
+Print Assumptions store_load_roundtrip_reachable.
+
+(** [serialize_deserialize_roundtrip] without [tok] (the node count below 2^32 stays: parent
+    distances are BE32 - a resource bound like the store size, not a property of the keys). *)
+Theorem serialize_deserialize_roundtrip_reachable : forall (sha256 : list N -> list N),
+  (forall x, length (sha256 x) = 32%nat) ->
+  forall s t, reach sha256 (2 ^ 32 - 1) s -> c_pers (settle s) = Some t ->
+  N.of_nat (tsize (erase t)) < 2 ^ 32 ->
+  deserialize (serialize sha256 (Some (erase t))) = Some (Some (erase t, hash_node sha256 (erase t)), []).
+Proof. exact (fun sha len => serialize_reachable sha len (2 ^ 32 - 1) eq_refl). Qed.
+Print Assumptions serialize_deserialize_roundtrip_reachable.
+
+(** [migrate_preserves] without [root_ok]. *)
+Theorem migrate_preserves_reachable : forall (sha256 : list N -> list N),
+  (forall x, length (sha256 x) = 32%nat) ->
+  forall s st' r', reach sha256 (2 ^ 32 - 1) s ->
+  migrate sha256 (c_pers (settle s)) empty_store = (st', r') -> s_next st' < 2 ^ 64 ->
+  erase_root r' = erase_root (c_pers (settle s))
+  /\ match r' with
+     | None => c_pers (settle s) = None
+     | Some t' =>
+         exists x, root_ref r' = Some x
+         /\ forall fuel, (theight (erase t') <= fuel)%nat ->
+              load_node fuel st' x = Some (erase t', hash_node sha256 (erase t'))
+     end.
+Proof. exact (fun sha len => migrate_reachable sha len (2 ^ 32 - 1) eq_refl). Qed.
+Print Assumptions migrate_preserves_reachable.
+
+(** ** Storage status: [CachedRef::{Disk, Memory, Cached}] as a state machine *)
+
+(** The status trees of [CacheStatus.v] refine the located trees: every persistence step of
+    the status machine ([store_update] keeping the state, [store_update] + reload, [cache],
+    [migrate], [serialize] + [deserialize]) IS the step of the C04 machine [c_step] after
+    forgetting the difference between Disk and Cached ([to_a]). *)
+Theorem status_machine_refines : forall (sha256 : list N -> list N) o s,
+  fst (c_step sha256 (cop_of o) (mkC (ss_store s) (to_a_root (ss_root s)) None))
+  = mkC (ss_store (s_step sha256 o s)) (to_a_root (ss_root (s_step sha256 o s))) None.
+Proof. exact s_step_refines. Qed.
+Print Assumptions status_machine_refines.
+
+(** Caching the whole state ([PersistentState::cache]: Disk -> Cached everywhere) and one
+    [load_and_cache] of a link change neither the contents, nor any location, nor the hash;
+    references that were valid stay valid; after [cache] nothing is Disk. *)
+Theorem cache_and_load_preserve : forall (sha256 : list N -> list N) st t,
+  (to_a (s_cache t) = to_a t
+   /\ erase (to_a (s_cache t)) = erase (to_a t)
+   /\ hash_node sha256 (erase (to_a (s_cache t))) = hash_node sha256 (erase (to_a t))
+   /\ (consistent sha256 st (to_a t) -> consistent sha256 st (to_a (s_cache t)))
+   /\ no_disk (s_cache t) = true)
+  /\ (to_a (s_load1 t) = to_a t
+      /\ hash_node sha256 (erase (to_a (s_load1 t))) = hash_node sha256 (erase (to_a t))
+      /\ (consistent sha256 st (to_a t) -> consistent sha256 st (to_a (s_load1 t)))).
+Proof. exact (fun sha st t => conj (cache_preserves sha st t) (load1_preserves sha st t)). Qed.
+Print Assumptions cache_and_load_preserve.
+
+(** [good] ("below a link that has a reference nothing lives in memory only", the invariant
+    the code relies on at low_level.rs 1649-1652) holds for every state purely in memory and
+    is kept by every step of the status machine. *)
+Theorem status_invariant : forall (sha256 : list N -> list N),
+  (forall t, good (s_of_tree t) = true)
+  /\ (forall o s, good_root (ss_root s) = true -> good_root (ss_root (s_step sha256 o s)) = true).
+Proof. exact (fun sha => conj (proj1 good_of_tree_mut) (s_step_good sha)). Qed.
+Print Assumptions status_invariant.
+
+(** After [store_update]: in the state kept in memory every link below the root is Disk or
+    Cached and no long value is Memory ([located_below]); the reloaded state is a Disk root;
+    the census (what can be observed of the implementation) shows at most the root as
+    Memory node. *)
+Theorem store_update_settles_status : forall (sha256 : list N -> list N) t st st' k l top,
+  good t = true -> s_store_update sha256 (Some t) st = (st', k, l, top) ->
+  exists k0 l0, k = Some k0 /\ l = Some l0
+    /\ located_below k0 = true /\ located l0 = true /\ good k0 = true /\ good l0 = true
+    /\ n_mem (census k0) <= 1 /\ census l0 = mkCens 1 0 0 0 0 0 0.
+Proof. exact store_update_settles. Qed.
+Print Assumptions store_update_settles_status.
+
+(** ... with valid references: both states are [consistent] with the new store (every node
+    link / long value with a reference IS at that reference and loads the right subtree with
+    the right hash) and have the stored contents. *)
+Theorem store_update_references_valid : forall (sha256 : list N -> list N),
+  (forall x, length (sha256 x) = 32%nat) ->
+  forall t st st' k l top,
+  s_store_update sha256 (Some t) st = (st', Some k, Some l, top) ->
+  tree_ok (to_a t) -> bounded st -> consistent sha256 st (to_a t) -> s_next st' < 2 ^ 64 ->
+  consistent sha256 st' (to_a k) /\ consistent sha256 st' (to_a l)
+  /\ erase (to_a k) = erase (to_a t) /\ erase (to_a l) = erase (to_a t) /\ bounded st'.
+Proof. exact store_update_valid. Qed.
+Print Assumptions store_update_references_valid.
+
+(** A second [store_update] writes nothing new: on a state with nothing in memory below the
+    root (what [store_update] leaves) it appends the root record and the top record (Memory
+    root), or the top record only (Disk / Cached root) - no child node, no value. *)
+Theorem second_store_update_writes_nothing : forall (sha256 : list N -> list N) t st st2 k2 l2 top2,
+  located_below t = true -> s_store_update sha256 (Some t) st = (st2, k2, l2, top2) ->
+  (exists x body, s_recs st2 = (top2, 1 :: be64 x) :: (x, body) :: s_recs st)
+  \/ (exists x, s_recs st2 = (top2, 1 :: be64 x) :: s_recs st).
+Proof. exact second_store_writes_nothing. Qed.
+Print Assumptions second_store_update_writes_nothing.
+
 (** ** Non-vacuity *)
 
 Definition toy_sha (l : list N) : list N := repeat (lenN l mod 251) 32.
@@ -357,3 +503,27 @@ Example persistence_roundtrips :
   /\ root_ok r1 /\ wfb t = true.
 Proof. vm_compute. repeat split; try reflexivity; try discriminate. Qed.
 Print Assumptions persistence_roundtrips.
+
+(** a reachable state (insert, store, insert of a 40-byte key, delete, freeze) *)
+Example reachable_state :
+  let s := fst (c_step toy_sha CFreeze (fst (c_step toy_sha (CDelete [1])
+             (fst (c_step toy_sha (CInsert (repeat 171 40) (repeat 9 70))
+             (fst (c_step toy_sha CStore (fst (c_step toy_sha (CInsert [1; 2] [7]) c_init))))))))) in
+  reach toy_sha (2 ^ 32 - 1) s /\ c_pers (settle s) <> None.
+Proof.
+  split; [|vm_compute; discriminate].
+  repeat (apply reach_step; [| first [exact I | vm_compute; repeat split; discriminate] | vm_compute; reflexivity]).
+  apply reach_init.
+Qed.
+Print Assumptions reachable_state.
+
+(** the status machine: store, store again (root + top record only), cache, reload, ... *)
+Example status_machine_run :
+  good (s_of_tree status_run_tree) = true
+  /\ map (fun x => cens_list (fst x))
+        (s_run toy_sha_c [SoStore; SoStore; SoCache; SoLoad; SoCache; SoStore; SoMigrate; SoSerial]
+               (mkS empty_store (Some (s_of_tree status_run_tree))))
+     = [[2; 1; 0; 0; 0; 0; 0]; [2; 1; 0; 0; 0; 0; 0]; [0; 1; 3; 0; 0; 1; 2]; [1; 0; 0; 0; 0; 0; 0];
+        [0; 0; 4; 0; 0; 1; 2]; [0; 0; 4; 0; 0; 1; 2]; [1; 0; 0; 0; 0; 0; 0]; [0; 4; 0; 0; 1; 0; 2]].
+Proof. exact (conj eq_refl status_run). Qed.
+Print Assumptions status_machine_run.
